@@ -154,6 +154,11 @@ def _terms(tier):
                     for b in d2:
                         ts.append((op, a, b))
                         ts.append((op, b, a))
+        a, b, c3, d = POOL8[1], POOL8[2], POOL8[3], POOL8[4]
+        for op in ("and", "or", "xor"):
+            other = "or" if op != "or" else "and"
+            ts += [(op, a, (op, b, c3)), (op, (op, a, b), (op, c3, d)), (op, a, (op, b, (op, c3, d))), (op, (op, (op, a, b), c3), d),
+                   (op, a, (other, b, c3)), (other, (op, a, b), (op, c3, d)), (op, T.NULL, (op, a, (op, b, T.NULL)))]
         _c[tier] = fragment() + ts
     return _c[tier]
 
